@@ -22,6 +22,14 @@ claimed = {
          "Decides that no floor computation in pruner/ or the history-prune migrator can wrap, that the retention floor is published (monotonically, by CAS) before anything is deleted and with the same bound, that prune bounds are head−retained under the L1 guards with the time floor only lowering them, that the header/hash→number carve-outs are kept, that only revert/pruner/migrations delete block and history buckets, and that the resumable prune phase never deletes what it or the resume probe reads. It does not decide data integrity under arbitrary interleavings or min-age timing.",
          "trusted: go/types, go/ssa, VTA; term equality is used for repeated loads of the same field (assumes no intervening mutation); reviewed per-site exceptions are listed with reasons in engine/c16.go",
          "DESIGN.md §5 C16"),
+ "C12": ("must-hold condition sets in DNF (dominating branches, &&/|| recovered from φ-nodes, boolean helpers inlined) at every rule action site of the generic tendermint SSA bodies, matched against the paper's enabling conditions; field-store ownership; term comparison of threshold formulas",
+         "Decides that the implemented rules are the Tendermint paper's rules: every conjunct of lines 22/28/34/36/44/47/49/55 and of the timeout handlers holds on every path to its action; the value is prevoted only under Valid ∧ lock condition; votes are only built by setStepAndSend* under the right step, which they advance; lock/valid/height/round/flags are written only by their owning actions; q=⌈2N/3⌉, f=⌊(N−1)/3⌋, ≥q and >f comparisons, one ballot per validator and kind; proposals are accepted only from the proposer of their own height/round. Agreement itself follows from the paper's proof and is not re-proved; adversarial schedules and liveness are not decided.",
+         "trusted: go/types, go/ssa (generic bodies), the condition canonicaliser; the paper's rule table in engine/c12.go; a rule rewritten beyond the recognised term forms fails as a violation/undecided and must be re-confirmed by hand",
+         "DESIGN.md §5 C12"),
+ "C13": ("CFG must-pass-through (paths avoiding the flush block may only use the isReplaying / !RequiresWALFlush edges) in Driver.execute; constant-return check of RequiresWALFlush per type-switch arm; who-may-call over resolved call sites; shape of action-list literals; call-graph reachability from replay to non-logged non-deterministic sources",
+         "Decides the write-ahead ordering: no broadcast or commit is reachable without the per-action WAL flush that covers its cause; every peer-visible action type requires a flush; only the driver broadcasts and drives the WAL; every action list with a visible effect starts with the WriteWAL of its cause and messages are recorded in the vote counter unconditionally; commit is OnCommit(success) → DeleteWALEntries → Flush; replay covers every WAL entry type; replay must not re-derive values from non-logged non-deterministic sources (today it does: known finding F4). Equality of the recovered state and what survives a crash are not decided.",
+         "trusted: go/types, go/ssa, VTA extended with generic origins; driver functions are analysed on their generic bodies",
+         "DESIGN.md §5 C13"),
 }
 pending = {}  # id -> reason (properties not claimed)
 props = [json.loads(l) for l in open(os.path.join(V, "properties.jsonl"))]
